@@ -32,6 +32,21 @@ type Int struct {
 	// X, when non-nil, makes this "byte" an opaque variable-length chunk
 	// inside a string (a formatted number, or an unknown formatted text).
 	X *Opaque
+	// Ref, when non-nil, makes this byte of a string a view of a memory cell
+	// (unsafe.String over a byte slice): it is read when the string is used.
+	Ref *value
+}
+
+// deref resolves a view byte to the cell's current content.
+func (x Int) deref() Int {
+	for x.Ref != nil {
+		v, ok := (*x.Ref).(Int)
+		if !ok {
+			panic(inconclusive{"string view of a cell that does not hold a byte"})
+		}
+		x = v
+	}
+	return x
 }
 
 // Opaque is a string piece of unknown length: the textual rendering of a
@@ -118,7 +133,7 @@ func (x Int) signed() int64 {
 	return int64(x.C<<sh) >> sh
 }
 
-func (x Int) isConc() bool { return x.T == nil && x.FB == nil && x.X == nil }
+func (x Int) isConc() bool { return x.T == nil && x.FB == nil && x.X == nil && x.Ref == nil }
 
 func mkInt(w uint8, s bool, c uint64) Int {
 	if w < 64 {
@@ -164,6 +179,9 @@ func bvLit(c uint64, w uint8) string {
 }
 
 func (x Int) term() *Term {
+	if x.Ref != nil {
+		return x.deref().term()
+	}
 	if x.X != nil {
 		panic(inconclusive{"byte-level use of an opaque formatted string piece"})
 	}
